@@ -62,7 +62,7 @@ def compare(impl, model, hdl):
     mi, mm = machines(impl), machines(model)
     st = {"ran_off_end": 0, "machines": len(mi), "steps": 0, "sim_steps_compared": 0, "hdl_cycles_compared": 0, "retire_compared": 0,
           "hdl_ok": 0, "hdl_rejected": 0, "pruned_machines": 0, "failed_runs": 0, "ops": {}, "rsize": {}, "distinct": set(),
-          "handshake_machines": 0}
+          "handshake_machines": 0, "hdl_only_clocks": 0}
     fails = []
     if len(mi) != len(mm):
         return st, [{"kind": "oracle-desync", "arch": "", "detail": "%d vs %d machines" % (len(mi), len(mm))}]
@@ -92,11 +92,27 @@ def compare(impl, model, hdl):
                     st["pruned_machines"] += 1
         # walk the steps
         xi = [x for x in a["lines"] if x.startswith("V ") or x.startswith("X ")]
-        ym = [x for x in b["lines"] if x[:2] in ("V ", "X ", "Y ", "Z ")]
+        ym = [x for x in b["lines"] if x[:2] in ("V ", "X ", "Y ", "Z ") or x.startswith("VH ")]
         stim = []
         i = j = 0
         alive_sim = alive_hdl = alive_ret = True
         while i + 1 < len(xi) and j < len(ym):
+            # a hardware-only clock (first clock of an ro2rri): VH, Y, Z -- the HDL tie only
+            if ym[j].startswith("VH "):
+                blk = ym[j:j + 3]
+                j += 3
+                if len(blk) < 3:
+                    break
+                _, y, z = blk
+                st["hdl_only_clocks"] += 1
+                if hdl and (y.startswith("Y fail") or y.startswith("Y none")):
+                    alive_hdl = alive_ret = False
+                if hdl and alive_hdl:
+                    st["hdl_cycles_compared"] += 1
+                    if y[2:] != z[2:]:
+                        fails.append(dict(base, kind="hdl-correspondence", step=len(stim), impl=y, model=z, stim=list(stim)))
+                        alive_hdl = False
+                continue
             v, x_impl = xi[i], xi[i + 1]
             i += 2
             # model block: V, X, Y, Z
@@ -212,7 +228,7 @@ def run(rep):
         "the simulator's DelayCounter is 0 (no simbox delay distributions)",
     ]
     tot = {"ran_off_end": 0, "machines": 0, "steps": 0, "sim_steps_compared": 0, "hdl_cycles_compared": 0, "retire_compared": 0, "hdl_ok": 0,
-           "hdl_rejected": 0, "pruned_machines": 0, "failed_runs": 0, "handshake_machines": 0}
+           "hdl_rejected": 0, "pruned_machines": 0, "failed_runs": 0, "handshake_machines": 0, "hdl_only_clocks": 0}
     ops, rsz, distinct, fails, samples = {}, {}, set(), [], []
 
     def absorb(st):
